@@ -617,13 +617,28 @@ def prepare(case, res):
 # ----------------------------------------------------------------------------
 # violation search (only when a checker rejects): independent exact / LP oracles
 # ----------------------------------------------------------------------------
-NEAR_ONE_RULE = ("signature class: discounted CONTINUING MDP (no absorbing state in the state list) with "
-                 "1 - gamma <= 2^-11; every other value mismatch / raise keeps its ordinary signature")
+NEAR_ONE_RULE = ("signature class: discounted MDP with 1 - gamma <= 2^-10 that has a CONTINUING part (some state of the state list "
+                 "from which no absorbing state is reachable with positive probability); every other value mismatch / raise keeps "
+                 "its ordinary signature")
 
 
-def near_one_continuing(mdpcase, absorbing):
+def near_one_continuing(mdpcase, absorbing, state_list=None, arrays=None):
     g = F(mdpcase["gamma"])
-    return g < 1 and 1 - g <= F(1, 2**11) and not any(absorbing)
+    if not (g < 1 and 1 - g <= F(1, 2**10)):
+        return False
+    if arrays is None:
+        sl = state_list if state_list is not None else list(range(mdpcase["n"]))
+        al = sorted({a for acts in mdpcase["actions"] for a in acts})
+        P, R, av, absf, ini = gen_mdp.arrays(mdpcase, sl, al)
+        absorbing, _ = _c01.model_masks(P, R, av, absf, g)
+    else:
+        P, av = arrays
+    n, nA = len(P), len(P[0])
+    can = list(absorbing)
+    for _ in range(n):
+        can = [can[s] or any(av[s][a] and P[s][a][k] > 0 and can[k] for a in range(nA) for k in range(n)) for s in range(n)]
+    return not all(can)
+
 
 def search_failing(case, res, d):
     n, nA, av, pi, g, h = d["n"], d["nA"], d["av"], d["pi"], d["g"], d["h"]
@@ -644,7 +659,7 @@ def search_failing(case, res, d):
             return None
         vscale = max([F(1)] + [abs(x) for x in Vs])
         bound = d["tols"][0] / (1 - gam) + F(1, 10**6) * vscale
-        if near_one_continuing(case["mdp"], d["absorbing"]):
+        if near_one_continuing(case["mdp"], d["absorbing"], arrays=(d["P"], d["av"])):
             # the certificate (residual cap) already failed; a value off by more than 1e-5 relative is reported
             # as the value mismatch it is (the proved bound 1e-3 is sufficient, not necessary)
             bound = min(bound, F(1, 10**5) * vscale)
@@ -658,13 +673,13 @@ def search_failing(case, res, d):
                 why = {"clause": "state value differs from the exact optimal discounted value",
                        "state_index": s, "reported": str(float(h[s])), "optimal": str(float(Vs[s])),
                        "relative_error": str(float(abs(h[s] - Vs[s]) / vscale)), "one_minus_gamma": str(1 - gam)}
-                if near_one_continuing(case["mdp"], d["absorbing"]):
+                if near_one_continuing(case["mdp"], d["absorbing"], arrays=(d["P"], d["av"])):
                     # discount rate very close to 1: the evaluation step solves the Gram (normal-equations)
                     # system, whose condition number is the square of the stacked system's ~ 1/(1-gamma)^2
                     why["signature"] = "C16:discounted:gamma-near-one:values-not-optimal"
                     why["class_rule"] = NEAR_ONE_RULE
                     why["reported_gain"] = [str(float(x)) for x in g]
-                elif 1 - gam > F(1, 2**11) and max(abs(x) for x in g) > F(1, 10**6) * d["scale"]:
+                elif 1 - gam > F(1, 2**10) and max(abs(x) for x in g) > F(1, 10**6) * d["scale"]:
                     # a discounted evaluation system forces gain 0: a clearly non-zero reported gain means
                     # equations (gamma*P - I) g = 0 were dropped by independent_row_indices (np.isclose(det, 0)
                     # is scale dependent: the Gram determinant of several small rows falls below 1e-8)
@@ -750,7 +765,7 @@ def run(ctx):
             absorbing_decl = [bool(pc["mdp"]["absorbing"][s_]) for s_ in sl]
             detail = {"case": case, "step": j, "error": out["error"]}
             sig = "C16:raises:" + etype
-            if etype in ("UnboundLocalError", "LinAlgError") and near_one_continuing(pc["mdp"], res.get("absorbing_vec", absorbing_decl)):
+            if etype in ("UnboundLocalError", "LinAlgError") and near_one_continuing(pc["mdp"], None, state_list=sl):
                 # same root cause as the gamma-near-one value errors (numerically singular Gram system): either the
                 # solve raises LinAlgError, or the noisy non-zero gain keeps the gain improvement step switching
                 # for all max_iterations and bias_q is never bound (UnboundLocalError)
@@ -859,4 +874,13 @@ def run(ctx):
                 "only converged=True runs are judged; distinct = structural hash of the MDP; non-trivial = at least one non-terminal state" % nmax,
         "samples": [{"case": cases[items[meta[0]][0]], "impl": impl[items[meta[0]][0]]}] if meta else [],
         "cases": len(cases), "planning_steps": len(items), "certificate_checks": nchk, **stats,
+        "observations": [
+            "non-convergence (outside the property): bias improvement is not restricted to gain-maximising actions, so the iteration 2-cycles on "
+            "most genuinely multichain MDPs; those runs report converged=False and are counted (not_converged), not judged",
+            "the Gram-system conditioning recorded as known finding for gamma-near-one continuing MDPs also degrades EPISODIC problems whose expected "
+            "horizon is ~2000+ steps (corridor with forward probability 1/8 and back-slips, gamma 0.999995: V = -9813 vs V* = -9882, 0.7%); the "
+            "episodic near-one family stays inside the accurate range (expected horizon <= ~2.5 L), so the check does not report it",
+            "plan_on raises StateActionIndexError when the initial distribution lists a zero-probability state outside the reachable state "
+            "list; the generator strips such entries",
+        ],
     })
